@@ -135,6 +135,13 @@ def site_observe(tree, v):
     loops = [n for n in f.body if isinstance(n, ast.For)]
     if len(loops) != 1:
         raise Fail('expected one for loop')
+    # the scan must see the caller's `amount` (Python compares an int observation with a float bound exactly):
+    # no rebinding such as `amount = float(amount)` anywhere in the method
+    for n in ast.walk(f):
+        if isinstance(n, (ast.Assign, ast.AugAssign, ast.AnnAssign)):
+            tgts = n.targets if isinstance(n, ast.Assign) else [n.target]
+            if any(isinstance(t, ast.Name) and t.id == 'amount' for t in tgts):
+                raise Fail('`amount` is rebound before the bucket scan: %s' % ast.unparse(n))
     lp = loops[0]
     if ast.unparse(lp.target) != '(i, bound)' or ast.unparse(lp.iter) != 'enumerate(self._upper_bounds)':
         raise Fail('loop header changed: for %s in %s' % (ast.unparse(lp.target), ast.unparse(lp.iter)))
